@@ -12,7 +12,7 @@ ID = "C18"
 LEVEL = "exploration"
 RULE = (
     "cases are JSON-native dictionaries drawn from a seeded generator (share-link shaped {code, options} with real "
-    "program text, arbitrary nested dicts/lists, big ints, floats, any Unicode incl. NUL and lone surrogates, every line-ending convention (CR LF, CR, LF, mixed, NEL, U+2028, BOM) in program text and in other strings, and "
+    "program text, arbitrary nested dicts/lists, dictionaries keyed by the project's own vocabulary (option names in both spellings, identifiers of the web front end, string literals of the package), big ints, floats, any Unicode incl. NUL and lone surrogates, every line-ending convention (CR LF, CR, LF, mixed, NEL, U+2028, BOM) in program text and in other strings, and "
     "length sweeps that walk the base64 length through every residue mod 4); a case is non-trivial when its encoded "
     "form is longer than 8 characters; distinct = distinct sha1 of the JSON text of d"
 )
@@ -94,6 +94,37 @@ def _value(r, depth):
 
 
 _PROG = None
+_VOCAB = None
+
+
+def _vocab():
+    """Keys that mean something to the project: option field names (both spellings), identifiers of the web front end that
+    builds and reads share links, and the package's own string literals.  A decoder that 'normalises' a known key is not an identity."""
+    global _VOCAB
+    if _VOCAB is None:
+        import dataclasses
+
+        from ..common import PKG, REPO
+
+        v = {"code", "options", "version", "libraries", "name", "data", "v", "id", "source", "lang", "lua", "python"}
+        try:
+            from stationeers_pytrapic.compile_pass import CompileOptions
+
+            for f in dataclasses.fields(CompileOptions):
+                v.update({f.name, f.name.replace("_", "-"), "no_" + f.name, f.name.split("_")[0], f.name.split("_")[-1]})
+        except Exception:
+            pass
+        for f in [REPO / "webapp" / "src" / "index.ts", PKG / "types.py", PKG / "compiler.py", PKG / "mod_daemon.py"]:
+            try:
+                t = open(f, encoding="utf-8").read()
+            except Exception:
+                continue
+            v.update(re.findall(r"""["']([A-Za-z_][A-Za-z0-9_-]{1,24})["']""", t))
+            if str(f).endswith(".ts"):
+                v.update(re.findall(r"\bdata\.([A-Za-z_]\w{1,24})", t))
+                v.update(re.findall(r"\b([a-z_][a-z0-9_]{2,24})\s*:", t))
+        _VOCAB = sorted(v)
+    return _VOCAB
 
 
 def _programs():
@@ -151,12 +182,23 @@ def gen_case(task, i):
         return dict(d={"code": src, "options": opts})
     if k < 0.5:
         return dict(d={"code": _text(r, 3000), "options": {}})
+    if k < 0.62:
+        # keys the project itself knows, in subsets: top level, under "options", and one level down
+        voc = _vocab()
+        d = {r.choice(voc): _value(r, 2) for _ in range(r.randrange(1, 5))}
+        if r.random() < 0.4:
+            d["options"] = {r.choice(voc): _num(r) for _ in range(r.randrange(0, 4))}
+        if r.random() < 0.3:
+            d[_text(r, 6)] = {r.choice(voc): _value(r, 3) for _ in range(r.randrange(1, 3))}
+        return dict(d=d, vocab=1)
     return dict(d={_text(r, 12): _value(r, 0) for _ in range(r.randrange(0, 7))})
 
 
 def check_case(case):
     d = case["d"]
     counters = {"roundtrips": 1}
+    if case.get("vocab"):
+        counters["dict_with_project_vocabulary_keys"] = 1
     if case.get("json_len"):
         counters["json_over_64KiB"] = int(case["json_len"] > 65536)
         counters["json_over_1MiB"] = int(case["json_len"] > (1 << 20))
@@ -209,7 +251,7 @@ def run_case(task, i):
 
 def finish(agg, tier):
     c = agg["counters"]
-    need = ["std_has_plus", "std_has_slash", "pad_0", "pad_1", "pad_2", "text_with_crlf", "text_with_lone_cr", "text_with_unicode_line_separator", "json_over_1MiB"]
+    need = ["std_has_plus", "std_has_slash", "pad_0", "pad_1", "pad_2", "text_with_crlf", "text_with_lone_cr", "text_with_unicode_line_separator", "json_over_1MiB", "dict_with_project_vocabulary_keys"]
     missing = [k for k in need if not c.get(k)]
     if missing or c.get("roundtrips", 0) < 1000:
         return dict(inconclusive=f"monitor never saw: {missing} (roundtrips={c.get('roundtrips', 0)})")
